@@ -22,6 +22,9 @@ CLS_ENUM30 = "openapi-3.0-non-string-enum-values-emitted-as-strings"
 CLS_RFC = "rfc7807-component-without-a-plain-error-route"
 CLS_YAML31 = "openapi-3.1-string-enum-values-retyped-by-yaml"
 CLS_FORMDESCR = "openapi-3.0-form-field-description-written-through-ref"
+# a declared type that is called Time is documented as {"type":"string","format":"date-time"} wherever it is used
+# (swagtool.ToOpenApiType dispatches on the bare identifier) while its component is built from its declaration
+CLS_TIME = "declared-type-named-Time-documented-as-date-time"
 SAR = "spec-and-routes"
 # The 3.0 generator writes the description of a @FormField parameter of a named type into the shared
 # component (patches/fix-C07-form-field-description-through-ref.diff).  The deliberate instance runs once
@@ -148,6 +151,99 @@ def neutralise(spec, version, u):
     return out, applied
 
 
+# ------------------------------------------------------------------ class CLS_TIME: a declared type called Time
+
+TIME_RENAMED = "TimeRn"
+REF = "#/components/schemas/"
+
+
+def is_date_time(sch):
+    t = sch.get("type") if isinstance(sch, dict) else None
+    if isinstance(t, list):
+        t = [x for x in t if x != "null"]
+        t = t[0] if len(t) == 1 else None
+    return t == "string" and sch.get("format") == "date-time" and "$ref" not in sch
+
+
+def py_json_name(f):
+    if f["json"] is None:
+        return f["name"]
+    n = f["json"].split(",")[0]
+    return n or f["name"]
+
+
+def neutralise_time(spec, u):
+    """Undo the effect of CLS_TIME: the same project with its declaration(s) called Time called TimeRn, and the
+    document with (a) the component and every $ref renamed alike and (b) the date-time strings that stand exactly
+    where a struct field's declared type names that declaration (directly, behind pointers, as the element of a
+    slice, as a map value, as an embedded type) replaced by references to it.  Nothing else is touched: whatever
+    else is wrong with the document is still wrong with the result.  Returns (universe, document, changed)."""
+    keys = [(d["pkg"], d["name"]) for d in u["decls"] if d["name"] == T.SHADOW_TIME]
+    if spec is None or len(keys) != 1 or T.find_decl(u, keys[0][0], TIME_RENAMED) is not None:
+        return u, spec, False
+    key = keys[0]
+    out = copy.deepcopy(spec)
+    schemas = (out.get("components") or {}).get("schemas") or {}
+    changed = [False]
+
+    def fix(t, sch):
+        """The schema at a usage of type expression t, with date-time strings at the positions of `key` replaced."""
+        if not isinstance(sch, dict):
+            return sch
+        if t[0] == "ptr":
+            return fix(t[1], sch)
+        if t[0] == "named" and (t[1], t[2]) == key:
+            if is_date_time(sch):
+                changed[0] = True
+                return {"$ref": REF + T.SHADOW_TIME}
+            return sch
+        if t[0] == "slice" and isinstance(sch.get("items"), dict):
+            sch["items"] = fix(t[1], sch["items"])
+        elif t[0] == "map" and isinstance(sch.get("additionalProperties"), dict):
+            sch["additionalProperties"] = fix(t[2], sch["additionalProperties"])
+        return sch
+
+    for d in u["decls"]:
+        comp = schemas.get(d["name"])
+        if d["kind"] != "struct" or not isinstance(comp, dict):
+            continue
+        parts = comp.get("allOf") if isinstance(comp.get("allOf"), list) else None
+        inline = parts[0] if parts else comp
+        props = inline.get("properties") if isinstance(inline, dict) else None
+        vis = [f for f in d["fields"] if not f["embedded"] and f["name"][:1].isupper() and f["json"] != "-"]
+        names = [py_json_name(f) for f in vis]
+        for f, n in zip(vis, names):
+            if key in T.texpr_refs(f["type"]) and names.count(n) == 1 and isinstance(props, dict) and n in props:
+                props[n] = fix(f["type"], props[n])
+        emb = [f for f in d["fields"] if f["embedded"] and f["type"] != ["prim", "error"]]
+        if parts and len(parts) == 1 + len(emb):
+            for i, f in enumerate(emb):
+                parts[1 + i] = fix(f["type"], parts[1 + i])
+    if not changed[0]:
+        return u, spec, False
+
+    def rename(x):
+        if isinstance(x, dict):
+            return {k: (REF + TIME_RENAMED if k == "$ref" and v == REF + T.SHADOW_TIME else rename(v)) for k, v in x.items()}
+        if isinstance(x, list):
+            return [rename(v) for v in x]
+        return x
+    out = rename(out)
+    schemas = out["components"]["schemas"]
+    if T.SHADOW_TIME in schemas:
+        schemas[TIME_RENAMED] = schemas.pop(T.SHADOW_TIME)
+    return T.rename_type(u, key, TIME_RENAMED), out, True
+
+
+def neutral_case(spec, version, u):
+    """(universe, document, classes applied): the case with the effects of the known finding classes undone."""
+    spec2, applied = neutralise(spec, version, u)
+    u2, spec3, changed = neutralise_time(spec2, u)
+    if changed:
+        applied = set(applied) | {CLS_TIME}
+    return u2, spec3, applied
+
+
 # ------------------------------------------------------------------ metamorphic variants
 
 def set_validate(d, fi, value):
@@ -220,7 +316,7 @@ def variants_of(rng, u):
         p["validate"] = None if p["validate"] else "required"
         out.append(("param-tag", v, set(), None))
     # one extra route using a declared type (reached before or not)
-    cand = [d for d in u["decls"] if d["pkg"] != "ctl"]
+    cand = [d for d in u["decls"] if d["pkg"] != "ctl" and T.exported_name(d["name"])]
     if cand:
         d = rng.choice(cand)
         v = copy.deepcopy(u)
@@ -359,6 +455,97 @@ def tricky_universe():
 
 
 
+def mixin_universe():
+    """Structs that embed structs whose type NAME is unexported (the package-private mixin), by value and by
+    pointer, one and two levels deep, across packages; types that are reachable only through the embedded struct."""
+    P = T.prim
+    N = T.named
+
+    def fld(name, ty, json=None, validate="", emb=False):
+        return {"name": name, "embedded": emb, "json": json, "validate": validate, "type": ty}
+    decls = []
+    decls += [
+        {"pkg": "types", "name": "Carrier", "kind": "enum", "base": "string", "split": None,
+         "consts": [["CarrierPost", '"post"', "post"], ["CarrierBike", '"bike"', "bike"]]},
+        {"pkg": "types", "name": "Depot", "kind": "struct", "fields": [fld("City", P("string"), "city")]},
+        {"pkg": "types", "name": "tracking", "kind": "struct", "fields": [
+            fld("TrackingCode", P("string"), "trackingCode", "required"),
+            fld("Carrier", N("types", "Carrier"), "carrier", "required"),
+            fld("Depots", ["slice", N("types", "Depot")], "depots")]},
+        {"pkg": "types", "name": "audit", "kind": "struct", "fields": [fld("CreatedBy", P("string"), "createdBy")]},
+        {"pkg": "types", "name": "stamp", "kind": "struct", "fields": [fld("audit", ["ptr", N("types", "audit")], emb=True),
+                                                                    fld("Rev", P("int"), "rev")]},
+        {"pkg": "types", "name": "Parcel", "kind": "struct", "fields": [
+            fld("tracking", N("types", "tracking"), emb=True), fld("audit", ["ptr", N("types", "audit")], emb=True),
+            fld("Id", P("string"), "id", "required"), fld("Weight", P("float64"), "weight", "gte=0"),
+            fld("Last", N("types", "stamp"), "last"), fld("hidden", N("types", "audit"))]},
+        {"pkg": "other", "name": "omix", "kind": "struct", "fields": [fld("Note", P("string"), "note")]},
+        {"pkg": "other", "name": "Crate", "kind": "struct", "fields": [fld("omix", N("other", "omix"), emb=True),
+                                                                      fld("N", P("int"), "n")]},
+        {"pkg": "types", "name": "Pallet", "kind": "struct", "fields": [
+            fld("Crate", N("other", "Crate"), emb=True), fld("stamp", N("types", "stamp"), emb=True)]}]
+    routes = [{"name": "MParcel", "verb": "GET", "path": "/parcel", "hidden": False, "params": [],
+               "ret": ["slice", N("types", "Parcel")], "err": None, "errors": [], "security": []},
+              {"name": "MPallet", "verb": "GET", "path": "/pallet", "hidden": False, "params": [],
+               "ret": N("types", "Pallet"), "err": None, "errors": [], "security": []}]
+    return {"cfg": {"title": "API", "version": "1.0.0", "base_url": "https://api.example.com",
+                    "schemes": [{"name": "sec1", "type": "apiKey", "in": "header", "field": "x-sec1", "flows": []}],
+                    "default": None},
+            "decls": decls, "ctrls": [{"name": "Ctl", "prefix": "", "security": [], "routes": routes}]}
+
+
+def naming_universe(names, off=0):
+    """Type NAMES: declared structs, enums and aliases that are called like something the emitters know
+    (names: a selection of T.SHADOW_NAMES / T.SHADOW_TIME; off rotates which name is a struct, an enum, an
+    alias), each used directly, behind a pointer, in a slice and as a map value by a struct, and by
+    routes as result / body / query parameter."""
+    P = T.prim
+    N = T.named
+
+    def fld(name, ty, json=None, validate="", emb=False):
+        return {"name": name, "embedded": emb, "json": json, "validate": validate, "type": ty}
+    names = list(names)
+    decls, host, host2 = [], [], []
+    for i, n in enumerate(names):
+        pkg = "other" if i % 4 == 3 else "types"
+        if (i + off) % 3 == 0:
+            decls.append({"pkg": pkg, "name": n, "kind": "struct",
+                          "fields": [fld("Amount", P("int"), "amount", "required,gte=1"), fld("Unit", P("string"), "unit")]})
+        elif (i + off) % 3 == 1:
+            base = ["string", "int", "int64"][(i // 3) % 3]
+            consts = [[n + "A", '"a%d"' % i, "a%d" % i], [n + "B", '"b%d"' % i, "b%d" % i]] if base == "string" else \
+                [[n + "A", str(i), str(i)], [n + "B", str(i + 100), str(i + 100)]]
+            decls.append({"pkg": pkg, "name": n, "kind": "enum", "base": base, "split": None, "consts": consts})
+        else:
+            decls.append({"pkg": pkg, "name": n, "kind": "alias", "assigned": i % 2 == 0,
+                          "rhs": P(["string", "int64", "float64", "bool"][(i // 3) % 4])})
+        t = N(pkg, n)
+        (host if i % 2 == 0 else host2).extend([
+            fld("D" + n, t, "d" + n, "required" if i % 5 == 0 else ""), fld("P" + n, ["ptr", t]),
+            fld("S" + n, ["slice", t], "s" + n), fld("M" + n, ["map", P("string"), t], "m" + n + ",omitempty")])
+    decls.append({"pkg": "types", "name": "Host", "kind": "struct", "fields": host})
+    decls.append({"pkg": "types", "name": "Host2", "kind": "struct", "fields": host2})
+    routes = [{"name": "MHost", "verb": "GET", "path": "/host", "hidden": False, "params": [],
+               "ret": N("types", "Host"), "err": None, "errors": [], "security": []},
+              {"name": "MHost2", "verb": "POST", "path": "/host2", "hidden": False,
+               "params": [{"name": "body", "loc": "body", "alias": None, "type": N("types", "Host2"), "validate": "required"}],
+               "ret": None, "err": None, "errors": [], "security": []}]
+    for i, d in enumerate(decls[:len(names)]):
+        t = N(d["pkg"], d["name"])
+        r = {"name": "MN%d" % i, "verb": "GET", "path": "/n%d" % i, "hidden": False, "params": [],
+             "ret": t if i % 2 == 0 else ["slice", t], "err": None, "errors": [], "security": []}
+        if d["kind"] != "struct":
+            r["params"].append({"name": "q", "loc": "query", "alias": None, "type": t, "validate": None})
+        elif i % 2:
+            r["verb"] = "POST"
+            r["params"].append({"name": "body", "loc": "body", "alias": None, "type": t, "validate": "required"})
+        routes.append(r)
+    return {"cfg": {"title": "API", "version": "1.0.0", "base_url": "https://api.example.com",
+                    "schemes": [{"name": "sec1", "type": "apiKey", "in": "header", "field": "x-sec1", "flows": []}],
+                    "default": None},
+            "decls": decls, "ctrls": [{"name": "Ctl", "prefix": "", "security": [], "routes": routes}]}
+
+
 # ------------------------------------------------------------------ generations in ONE process
 
 SEQ_MOD = "verifproj/live"
@@ -454,8 +641,12 @@ def universe_stats(us):
           "self_recursive_structs": 0, "uses_second_package": 0, "reachable": 0, "unreachable": 0,
           "enum_bases": {}, "field_shapes": {}, "routes": 0, "hidden_routes": 0, "custom_error_universes": 0,
           "routes_with_context_param": 0, "routes_with_context_before_url_param": 0,
-          "string_enum_values_needing_escapes": 0, "tags_with_required_as_a_word_only": 0}
+          "string_enum_values_needing_escapes": 0, "tags_with_required_as_a_word_only": 0,
+          "struct_types_with_unexported_names": 0, "embedded_fields_of_unexported_struct_types": 0,
+          "embedded_by_pointer": 0, "declarations_named_like_a_name_the_emitters_know": 0,
+          "usages_of_declarations_named_like_a_name_the_emitters_know": 0}
     import re
+    shadow = set(T.SHADOW_NAMES) | {T.SHADOW_TIME}
 
     def word_only(tag):
         return bool(tag) and bool(re.search(r"\brequired\b", tag)) and "required" not in tag.split(",")
@@ -475,6 +666,8 @@ def universe_stats(us):
             st["uses_second_package"] += 1
         for d in u["decls"]:
             st["declarations"] += 1
+            st["declarations_named_like_a_name_the_emitters_know"] += int(d["name"] in shadow)
+            st["struct_types_with_unexported_names"] += int(d["kind"] == "struct" and not T.exported_name(d["name"]))
             st["reachable" if (d["pkg"], d["name"]) in reach else "unreachable"] += 1
             if d["kind"] == "enum":
                 st["enums"] += 1
@@ -490,6 +683,11 @@ def universe_stats(us):
                 for f in d["fields"]:
                     st["fields"] += 1
                     st["embedded_fields"] += int(f["embedded"])
+                    st["embedded_by_pointer"] += int(f["embedded"] and f["type"][0] == "ptr")
+                    st["embedded_fields_of_unexported_struct_types"] += int(
+                        f["embedded"] and f["type"] != ["prim", "error"] and not T.exported_name(f["name"]))
+                    st["usages_of_declarations_named_like_a_name_the_emitters_know"] += sum(
+                        1 for k2 in T.texpr_refs(f["type"]) if k2[1] in shadow)
                     st["unexported_fields"] += int(not f["embedded"] and not f["name"][:1].isupper())
                     st["json_dash"] += int(f["json"] == "-")
                     st["json_nameless"] += int(f["json"] == ",omitempty")
@@ -506,6 +704,12 @@ def universe_stats(us):
 
 def main():
     a, seed = args_for(PROP)
+    import time
+    t_start = time.time()
+
+    def phase(name):
+        if os.environ.get("VERIF_C07_TIMING"):
+            log("C07 timing: %6.1fs  %s" % (time.time() - t_start, name))
     res = Result(PROP, a.tier, seed)
     rng = random.Random(seed)
     build_coq()
@@ -531,24 +735,38 @@ def main():
         if os.path.exists(corpus_file):
             singles += [("corpus", u) for u in json.load(open(corpus_file))]
         singles.append(("tricky", tricky_universe()))
+        # quick: Duration and five more of the names, another selection for every seed; thorough: all of them
+        nrng = random.Random(seed * 7919 + 11)
+        rest = [x for x in T.SHADOW_NAMES if x != "Duration"]
+        if quick:
+            singles.append(("naming", naming_universe(["Duration"] + nrng.sample(rest, 5), nrng.randrange(3))))
+        else:
+            singles.append(("naming", naming_universe(T.SHADOW_NAMES)))
+        singles.append(("mixin", mixin_universe()))
+        if CLS_TIME in known or os.environ.get("VERIF_C07_SHADOW_TIME") == "1":
+            singles.append(("naming-time", naming_universe([T.SHADOW_TIME] + nrng.sample(rest, 2), nrng.randrange(3)) if quick
+                            else naming_universe(T.SHADOW_NAMES + [T.SHADOW_TIME])))
         singles.append(("same-named", same_named_universe()))
         singles.append(("custom-error", custom_error_universe(rng)))
         n = 26 if quick else 300
         k = 0
         while k < n:
             u = T.gen_universe(rng, {"tricky_enum_values": True, "literal_unsafe_enum_values": 0.25,
-                                     "custom_error": 0.08, "empty_enum_value": 0.2})
+                                     "custom_error": 0.08, "empty_enum_value": 0.2,
+                                     "unexported_structs": 0.4, "shadow_names": 0.3})
             if has_same_named(u):
                 continue
             singles.append(("random", u))
             k += 1
         # the second command that writes a specification: the deliberate universes and a part of the stream
-        nsar = 6 if quick else 60
+        nsar = 3 if quick else 60
         stream = [i for i, (l, _) in enumerate(singles) if l == "random"]
         # first the universes whose reachable string enums hold values that literals must escape
         stream = [i for i in stream if escaped_enum_values(singles[i][1])] + \
                  [i for i in stream if not escaped_enum_values(singles[i][1])]
-        sar_of = [i for i, (l, _) in enumerate(singles) if l in ("tricky", "custom-error")] + sorted(stream[:nsar])
+        sar_of = [i for i, (l, _) in enumerate(singles)
+                  if l in (("tricky", "naming", "mixin") if quick else ("tricky", "custom-error", "naming", "mixin"))] + \
+            sorted(stream[:nsar])
         nb = 6 if quick else 50
         quota = {"field-tag": nb, "field-oneof": max(2, nb // 3), "field-dive": max(3, nb // 2), "param-tag": nb,
                  "extra-route": nb, "form-param-described": 1 if quick else 4}
@@ -574,7 +792,9 @@ def main():
     universes = [u for _, u in singles]
     for _, u, v, _, _ in pairs:
         universes += [u, v]
+    phase("coq built, inputs generated (%d universes)" % len(universes))
     obs = T.run_universes(PROP, universes)
+    phase("generate spec")
     nsingle = len(singles)
     # `generate spec-and-routes` renders the routes file first and the specification after it, from the
     # same metadata: its documents are further observations of the same universes (same oracle, same model)
@@ -597,7 +817,7 @@ def main():
         if rp.get("sequence"):
             seqs = [[(st["label"], st["universe"], None, []) for st in rp["sequence"]]]
     elif os.environ.get("VERIF_C07_SEQUENCES", "1") != "0":
-        seqs = build_sequences(rng, singles, obs, 3 if quick else 12)
+        seqs = build_sequences(rng, singles, obs, 2 if quick else 12)
     if seqs:
         import concurrent.futures
         build_harness()
@@ -618,6 +838,8 @@ def main():
                 universes.append(st[1])
                 obs.append(seq_obs[si][ti])
 
+    phase("spec-and-routes + sequences")
+
     def command_of(k):
         return SAR if k in origin else GENSEQ if k in seq_of else "spec"
 
@@ -628,11 +850,12 @@ def main():
             spec = obs[k][v]["spec"]
             cases.append((v, u, spec))
             meta.append((k, v, "raw", set()))
-            spec2, applied = neutralise(spec, v, u)
+            u2, spec2, applied = neutral_case(spec, v, u)
             if applied:
-                cases.append((v, u, spec2))
+                cases.append((v, u2, spec2))
                 meta.append((k, v, "neutral", applied))
     ev = S.evaluate(PROP, cases)
+    phase("coq evaluation of %d cases" % len(cases))
     neutral_of = {}
     for i, (k, v, kind, applied) in enumerate(meta):
         if kind == "neutral":
@@ -642,7 +865,8 @@ def main():
         """Known-finding classes that explain the oracle failure of a raw case, or None."""
         u = universes[k]
         if has_same_named(u):
-            return {CLS_SAME_NAME} if set(ev["c07_fail"].get(raw_id, [])) <= {1, 2, 3} else None
+            # (5: the declaration that lost the shared component name has its fields read against the other one)
+            return {CLS_SAME_NAME} if set(ev["c07_fail"].get(raw_id, [])) <= {1, 2, 3, 5} else None
         j = neutral_of.get((k, v))
         if j is not None and j not in ev["c07_fail"] and j not in ev["unprojectable"]:
             return set(meta[j][3])
@@ -668,8 +892,8 @@ def main():
             if has_same_named(u):
                 return False
             o = observe(u, v, command)
-            spec2, _ = neutralise(o["spec"], v, u)
-            e = S.evaluate(PROP, [(v, u, spec2)], "shrink")
+            u2, spec2, _ = neutral_case(o["spec"], v, u)
+            e = S.evaluate(PROP, [(v, u2, spec2)], "shrink")
             return bool(e["c07_fail"]) or bool(e["unprojectable"])
         return pred
 
@@ -695,7 +919,7 @@ def main():
                      "implementation_components": components_of(obs[k][v]["spec"]),
                      "failed_subclaims": ev["c07_fail"][i]})
     def seq_case_fails(u, v, spec):
-        e = S.evaluate(PROP, [(v, u, neutralise(spec, v, u)[0])], "shrink")
+        e = S.evaluate(PROP, [(v,) + neutral_case(spec, v, u)[:2]], "shrink")
         return bool(e["c07_fail"]) or bool(e["unprojectable"])
 
     def report_sequence(i, why):
@@ -725,13 +949,16 @@ def main():
                        "components_missing_in_the_in_process_document": sorted(set(fresh) - set(components_of(bad))),
                        "why": why,
                        "subclaims": "1 a reachable declaration has no / a wrong / several schemas, 2 two reachable "
-                                    "declarations share a name, 3 a schema without declaration, 4 Rfc7807Error missing",
+                                    "declarations share a name, 3 a schema without declaration, 4 Rfc7807Error missing, "
+                                    "5 a field / embedded field of a declared type is not documented by a $ref to that type",
                        "claim": "prop_C07 is false on the document of the LAST step when the steps are generated one "
                                 "after the other in one process (input = the universe of that step); a fresh process "
                                 "writes fresh_process_components for it"})
 
     reported = 0
     seq_reported = 0
+    # the smallest failing projects are the ones that get shrunk and reported
+    unexplained.sort(key=lambda x: len(json.dumps(universes[meta[x[0]][0]])))
     fails_fresh = set((meta[i][0], meta[i][1]) for i, _ in unexplained if meta[i][0] not in seq_of)
     for i, why in unexplained:
         if meta[i][0] in seq_of:
@@ -748,14 +975,15 @@ def main():
         cmdk = command_of(k)
         small = T.shrink_universe(universes[k], still_fails(v, cmdk)) if not a.replay else universes[k]
         o = observe(small, v, cmdk)
-        e2 = S.evaluate(PROP, [(v, small, neutralise(o["spec"], v, small)[0])], "shrink")
+        e2 = S.evaluate(PROP, [(v,) + neutral_case(o["spec"], v, small)[:2]], "shrink")
         after = ("unprojectable: " + e2["unprojectable"][0]) if e2["unprojectable"] else \
             "prop_C07 sub-claims %s fail" % e2["c07_fail"].get(0, [])
         res.violation({"kind": "property-fails-on-implementation", "openapi": v, "command": cmdk, "input": small,
                        "implementation_components": components_of(o["spec"]), "cli_exit": o["exit"],
                        "cli_output": o["out"][-1200:], "why": why, "after_shrinking": after,
                        "subclaims": "1 a reachable declaration has no / a wrong / several schemas, 2 two reachable "
-                                    "declarations share a name, 3 a schema without declaration, 4 Rfc7807Error missing",
+                                    "declarations share a name, 3 a schema without declaration, 4 Rfc7807Error missing, "
+                                    "5 a field / embedded field of a declared type is not documented by a $ref to that type",
                        "claim": "prop_C07 (one schema per reachable declaration matching the declaration, no others "
                                 "apart from Rfc7807Error when a route returns a plain error) is false on the emitted document"})
 
@@ -778,7 +1006,7 @@ def main():
         cases2 = []
         for k2, u in enumerate(extra):
             for v in T.VERSIONS:
-                cases2.append((v, u, neutralise(obs2[k2][v]["spec"], v, u)[0]))
+                cases2.append((v,) + neutral_case(obs2[k2][v]["spec"], v, u)[:2])
         ev2 = S.evaluate(PROP, cases2, "widen")
         if ev2["c07_fail"]:
             j = sorted(ev2["c07_fail"])[0]
@@ -935,6 +1163,11 @@ def main():
                 "removed, an unrelated project, the first project again - 3.0.0 and 3.1.0 at every step, all in one live "
                 "directory): same oracle and model on every in-process document, components compared with those a fresh "
                 "process writes for the same universe; "
+                "struct types with unexported names embedded by value and by pointer by structs of their package (the "
+                "package-private mixin; random stream and the deliberate `mixin` universe); declarations called like a "
+                "name the emitters know (random stream and the deliberate `naming` universe: every name as struct / enum "
+                "/ alias, used directly, behind a pointer, in a slice, as a map value, as result / body / query "
+                "parameter); oracle sub-claim 5 (prop_C07_refs): a field of a declared type is a $ref to its component; "
                 "non-trivial = document written and it has a struct component; "
                 "distinct = distinct universes",
         "samples": [{"openapi": cases[i][0], "universe": cases[i][1],
@@ -967,11 +1200,15 @@ def main():
         "go/packages loading, go/types constant discovery (types.Identical) and the kin-openapi / libopenapi "
         "renderers and validators are exercised, not modelled; the library rules the generator can trigger are a "
         "modelled fragment (Schema.lib_model_ok_v)",
-        "struct tags carry only json and validate keys; map keys are primitives; declared type names do not shadow "
-        "the names gleece treats specially (Time, bytes, any)",
+        "struct tags carry only json and validate keys; map keys are primitives; declared types are called like "
+        "names the emitters know or could know (typegen.SHADOW_NAMES: Duration, Int, String, Any, Error, Bytes, ...) "
+        "but not `Time` (a declared type of that name is documented as a date-time string at every usage: class " +
+        CLS_TIME + ", generated once it is listed or with VERIF_C07_SHADOW_TIME=1) nor the lower-case predeclared "
+        "names (bytes, any, string, ...)",
         "descriptions, titles and deprecation flags of components are outside the projection (they are compared by "
         "the metamorphic pairs, which use full JSON equality)",
     ]
+    phase("reports and evidence")
     T.cleanup(PROP)
     T.cleanup(PROP + "_shrink")
     T.cleanup(PROP + "_widen")
